@@ -95,6 +95,10 @@ class Fragment(AbstractApplication):
             frag_offset = 0
             while frag_offset < len(payload_data):
                 fctr = BundleContainer()
+                if 'receive' in ctr.actions:
+                    # fragments of a bundle in transit are in transit too,
+                    # they keep the primary block of the source
+                    fctr.actions['receive'] = ctr.actions['receive']
                 fctr.bundle.primary = ctr.bundle.primary.copy()
                 fctr.bundle.primary.bundle_flags |= PrimaryBlock.Flag.IS_FRAGMENT
                 fctr.bundle.primary.fragment_offset = frag_offset
